@@ -567,7 +567,7 @@ def directed_cases(seed, quick=True):
         sizes += [("eq2-1", 2 * BLOCK - 1), ("eq2+1", 2 * BLOCK + 1), ("gt1", BLOCK + 2048), ("eq4", 4 * BLOCK), ("gt4", 4 * BLOCK + 7)]
     full = {"eq1": "copy", "gt2": "copy-per"}
     for i, (lab, sz) in enumerate(sizes):
-        modes = [full.get(lab, "restricted")] if quick else ["restricted", "copy", "copy-per", "noexample"]
+        modes = [full.get(lab, "restricted")] if quick else ["restricted", ["copy", "copy-per", "noexample"][i % 3]]
         for mode in modes:
             c = {"name": "DirT-" + lab, "mode": mode, "focus": ["T.c", "T.h"] if (lab in ("lt1", "eq2") or not quick) else ["T.c"],
                  "variants": True, "seed": seed * 1000 + i, "random": 0 if quick else 6}
